@@ -5,32 +5,26 @@ Import ListNotations.
 Local Open Scope Z_scope.
 
 (* ---- STRING_DEREF ------------------------------------------------------------------------- *)
-(* the half of the guard that exists *)
-Theorem string_index_guard_upper : forall s i,
+(* a character is produced  <->  0 <= index < length  (fix a6ffef6 added the `index < 0` test) *)
+Theorem string_index_guard : forall s i,
   strlen s < two31 ->
-  (strlen s <= i -> string_deref (Some s) i = Exc (IndexOob (-1))) /\
+  (0 <= i < strlen s <-> exists k, string_deref (Some s) i = Ok k) /\
   (0 <= i < strlen s ->
-     string_deref (Some s) i = Ok i /\ exists c, string_char s i = Some c).
+     string_deref (Some s) i = Ok i /\ exists c, string_char s i = Some c) /\
+  (~ (0 <= i < strlen s) -> string_deref (Some s) i = Exc (IndexOob (-1))).
 Proof.
   intros s i Hlen. unfold string_deref, strlen in *.
   rewrite s32_small by (unfold is_s32, two31 in *; lia).
-  split.
-  - intros H. destruct (Z.leb_spec (Z.of_nat (length s)) i); [reflexivity|lia].
-  - intros H. destruct (Z.leb_spec (Z.of_nat (length s)) i); [lia|]. split; [reflexivity|].
-    unfold string_char, strlen.
-    destruct (Z.leb_spec 0 i); [|lia]. destruct (Z.ltb_spec i (Z.of_nat (length s))); [|lia]. cbn.
-    destruct (nth_error s (Z.to_nat i)) as [c|] eqn:E; [eauto|].
-    apply nth_error_None in E. lia.
-Qed.
-
-(* intended statement: a character is produced  <->  0 <= index < length.
-   The pinned tree has no `index < 0` guard: index -1 is accepted and str[-1] is read. *)
-Theorem string_index_guard_refuted :
-  exists s i, strlen s < two31 /\ is_s32 i /\ ~ (0 <= i < strlen s) /\
-              string_deref (Some s) i = Ok i /\ string_char s i = None.
-Proof.
-  exists [104; 101; 108; 108; 111], (-1).
-  unfold is_s32, two31. repeat split; try (vm_compute; congruence); try lia.
+  destruct (Z.ltb_spec i 0) as [Hneg|Hnn]; cbn [orb].
+  - split; [split; [lia | intros [k Hk]; discriminate]|]. split; [lia | reflexivity].
+  - destruct (Z.leb_spec (Z.of_nat (length s)) i) as [Hge|Hlt].
+    + split; [split; [lia | intros [k Hk]; discriminate]|]. split; [lia | reflexivity].
+    + split; [split; [eauto | lia]|]. split; [|lia].
+      intros _. split; [reflexivity|].
+      unfold string_char, strlen.
+      destruct (Z.leb_spec 0 i); [|lia]. destruct (Z.ltb_spec i (Z.of_nat (length s))); [|lia]. cbn.
+      destruct (nth_error s (Z.to_nat i)) as [c|] eqn:E; [eauto|].
+      apply nth_error_None in E. lia.
 Qed.
 
 (* ---- list helpers --------------------------------------------------------------------------- *)
@@ -183,5 +177,6 @@ Example string_slice_example :
   slice_string s 4 0 = Ok [111; 108; 108; 101; 104] /\
   slice_string s 2 2 = Ok [108] /\
   slice_string s 1 5 = Exc (IndexOob (-1)) /\ slice_string s (-1) 2 = Exc (IndexOob (-1)) /\
-  string_deref (Some s) 4 = Ok 4 /\ string_deref (Some s) 5 = Exc (IndexOob (-1)).
+  string_deref (Some s) 4 = Ok 4 /\ string_deref (Some s) 5 = Exc (IndexOob (-1)) /\
+  string_deref (Some s) (-1) = Exc (IndexOob (-1)).
 Proof. cbv zeta. repeat split; vm_compute; reflexivity. Qed.
